@@ -8,6 +8,8 @@
 #include "trace.h"
 #include "worker.h"
 
+#include <ctime>
+
 #include "utap/DocumentBuilder.hpp"
 #include "utap/featurechecker.h"
 #include "utap/prettyprinter.h"
@@ -323,7 +325,13 @@ Run run_once(const Config& cfg, const std::vector<std::string>& toks)
 {
     Run r;
     std::string text = join(toks);
-    auto t0 = std::chrono::steady_clock::now();
+    // CPU time of this thread, not wall time: the "takes time out of proportion" oracle must not depend on machine load
+    auto cpu_now = [] {
+        struct timespec ts;
+        clock_gettime(CLOCK_THREAD_CPUTIME_ID, &ts);
+        return (long)ts.tv_sec * 1000000L + ts.tv_nsec / 1000;
+    };
+    long t0 = cpu_now();
     g_obs.reset();
     g_obs.tokens = &toks;
     g_obs.fine = cfg.fine;
@@ -431,7 +439,7 @@ Run run_once(const Config& cfg, const std::vector<std::string>& toks)
     r.errors = doc->get_errors().size();
     if (cfg.invcheck && (cfg.mode == "xml" || cfg.mode == "xta"))
         r.inv = invcheck(*doc, r.exc.empty() && !doc->has_errors());
-    r.us = std::chrono::duration_cast<std::chrono::microseconds>(std::chrono::steady_clock::now() - t0).count();
+    r.us = cpu_now() - t0;
     return r;
 }
 
